@@ -154,8 +154,19 @@ def _b_case(args):
     L = lib().LU
     m, n = int(rng.integers(1, 7)), int(rng.integers(1, 7))
     N = min(m, n)
-    kind = ["gauss", "int", "zero-col", "scaled", "dup-rows"][tid % 5]
-    if kind == "gauss":
+    kind = ["gauss", "int", "zero-col", "scaled", "dup-rows", "block-diagonal", "sparse", "graded"][tid % 8]
+    if kind == "block-diagonal":
+        m = n = int(rng.integers(4, 8))
+        N = n
+        h = n // 2
+        A = rng.standard_normal((m, n, 4))
+        A[:h, h:] = 0.0
+        A[h:, :h] = 0.0
+    elif kind == "sparse":
+        A = rng.standard_normal((m, n, 4)) * (rng.random((m, n, 1)) < 0.5)
+    elif kind == "graded":
+        A = rng.standard_normal((m, n, 4)) * (2.0 ** (-8.0 * np.arange(n)))[None, :, None]      # column scaling 1 .. 2^-40
+    elif kind == "gauss":
         A = rng.standard_normal((m, n, 4))
     elif kind == "int":
         A = rng.integers(-3, 4, size=(m, n, 4)).astype(float)
